@@ -99,6 +99,8 @@ func TestWorker(t *testing.T) {
 		}
 		emit(map[string]any{"start": r.RunIndex})
 		res := RunPlan(t, r.Plan, core.NewReplay(r.Decisions), true)
+		collectRaces(res)
+		raceOnly(r.Plan, res)
 		res.Decisions = nil
 		emit(res)
 		return
@@ -150,6 +152,8 @@ func TestWorker(t *testing.T) {
 		}
 		res := RunPlan(t, plan, st, os.Getenv("VERIF_DUMPLOG") != "")
 		res.Seed = seed
+		collectRaces(res)
+		raceOnly(plan, res)
 		if dp := os.Getenv("VERIF_DUMPLOG"); dp != "" {
 			os.WriteFile(fmt.Sprintf("%s.%d", dp, i), []byte(strings.Join(res.LogTail, "\n")+"\n"), 0o644)
 		}
@@ -170,4 +174,8 @@ func TestWorker(t *testing.T) {
 			*Result
 		}{i, res})
 	}
+	// the testing package fails a test during which the race detector
+	// reported anything; the orchestrator relies on this line instead of
+	// the exit status
+	emit(map[string]any{"worker_done": true})
 }
